@@ -149,7 +149,7 @@ def _changes(p0, p1, pname):
     if p0 == p1:
         return cls
     if len(p1.get("scf.for", [])) < len(p0.get("scf.for", [])):
-        cls.append("merge")
+        cls.append("merge" if pname == CANON else "loop-became-dead")
     if pname == CANON:
         if not cls or len(p1.get("arith.muli", [])) > len(p0.get("arith.muli", [])):
             cls.append("step-change")
